@@ -6,7 +6,7 @@ own mutants under mutants/) through tools/sweep1.sh, records what the check of
 its property reported under "caught_by" in its meta.json and writes the kill
 matrix to KILLS.md. Exit 1 if a change that is expected to be caught is not.
 """
-import json, os, subprocess, sys, glob, concurrent.futures as cf
+import json, os, signal, subprocess, sys, glob, concurrent.futures as cf
 
 root = os.path.dirname(os.path.dirname(os.path.abspath(__file__)))
 args = sys.argv[1:]
@@ -29,10 +29,19 @@ dirs = [d for d in dirs if os.path.exists(os.path.join(d, "patch.diff"))]
 
 def one(d):
     env = dict(os.environ, SWEEP_SUITE=suite)
+    # own session: on a timeout the whole tree (run.sh, supervisor, workers) is killed
+    proc = subprocess.Popen([os.path.join(root, "tools", "sweep1.sh"), d, tier], stdout=subprocess.PIPE, stderr=subprocess.PIPE, text=True, env=env, start_new_session=True)
     try:
-        p = subprocess.run([os.path.join(root, "tools", "sweep1.sh"), d, tier], capture_output=True, text=True, env=env, timeout=int(os.environ.get("SWEEP_TIMEOUT", "2400")))
+        out, err = proc.communicate(timeout=int(os.environ.get("SWEEP_TIMEOUT", "2400")))
     except subprocess.TimeoutExpired:
+        try:
+            os.killpg(proc.pid, signal.SIGKILL)
+        except ProcessLookupError:
+            pass
+        proc.communicate()
         return d, {"name": os.path.basename(d), "error": "sweep timed out (the check did not finish)"}
+    class P: pass
+    p = P(); p.stdout, p.stderr = out, err
     line = [l for l in p.stdout.splitlines() if l.startswith("{")]
     if not line:
         return d, {"name": os.path.basename(d), "error": "no result: " + p.stderr[-300:]}
